@@ -21,11 +21,16 @@ for sid in sorted(os.listdir(SEEDED)):
         print(sid, "patch does not apply")
         continue
     t0 = time.time()
+    # the evidence file of the property must keep describing the UNCHANGED tree: save it and put it back afterwards
+    evp = os.path.join("/verif/evidence", meta["property"] + ".json")
+    ev_saved = open(evp).read() if os.path.exists(evp) else None
     try:
         p = subprocess.run(["timeout", "2400", "/verif/check", meta["property"], "--tier", "quick"], capture_output=True, text=True, cwd="/verif")
         out, rc = p.stdout, p.returncode
     finally:
         subprocess.run(["git", "-C", "/repo", "checkout", "--", "."])
+        if ev_saved is not None:
+            open(evp, "w").write(ev_saved)
     viol = [l for l in out.splitlines() if l.startswith("VIOLATION") or l.strip().startswith("obligation:")]
     meta["detected_by"] = {"check": "./check %s --tier quick" % meta["property"], "exit": rc, "lines": viol[:6] or out.splitlines()[-3:], "wall_s": round(time.time() - t0, 1),
                            "when": time.strftime("%Y-%m-%d %H:%M")}
